@@ -236,6 +236,13 @@ func c08(c *Ctx) {
 	c08defaults(c, rd, "C08.defaults")
 	r.Rule("C08.read-buffer", "a control frame of any legal size (0..125 payload bytes) can be read: the Conn's bufio.Reader always holds at least maxControlFramePayloadSize bytes — newConn allocates at least that, and a reader handed to newConn by a caller (the hijacked one) is known to be that large on the path")
 	c08readBuffer(c, rd)
+	r.Rule("C08.reply-sendable", "a control write that timed out waiting for the connection leaves no sticky write error behind, so later pongs and close echoes are still sent (same rule as C11.timeout-paths)")
+	c.borrow(c11, map[string]string{"C11.timeout-paths": "C08.reply-sendable"})
+	r.Rule("C08.error-identity", "the CloseError (or handler error) raised while a compressed or joined message is being read reaches the application as that very value: every Read method layered over the message reader returns the inner error itself (same rules as C04.error-reaches-reader)")
+	flateWrapperRule(c, "C08.error-identity")
+	if c.readerWrappers("C08.error-identity") < 4 {
+		r.Fail("C08.error-identity", "package", "floor", c.fn("(*joinReader).Read").Pos(), "fewer than the 4 known reader wrappers were analysed")
+	}
 	r.Rule("C08.reply-private", "the pong / close reply is assembled by WriteControl in memory private to the call: nothing reachable from the Conn is written before Conn.mu is held, so a concurrent WriteControl cannot overwrite the reply (same rule as C11.timeout-paths)")
 	newTransport(c).noSharedBeforeLock("C08.reply-private")
 }
